@@ -21,8 +21,11 @@ class Injector:
     partial : (writes only) half of the data is written
     full    : the operation happens, then the process dies"""
 
-    def __init__(self, at=None, mode="none"):
-        self.at, self.mode = at, mode
+    def __init__(self, at=None, mode="none", buffered=False):
+        """buffered=False: every write call goes straight to the file descriptor (each write is a crash point that can
+        be cut short).  buffered=True: io.BufferedWriter semantics - written data only reaches the file at flush(),
+        close() or when more than 8 KiB are pending, and is lost when the process dies before that."""
+        self.at, self.mode, self.buffered = at, mode, buffered
         self.n = 0
         self.events = []
         self._saved = None
@@ -43,9 +46,22 @@ class Injector:
             self.closed = False
             flags = os.O_WRONLY | os.O_CREAT | (os.O_TRUNC if "w" in mode else os.O_APPEND)
             self.fd = os.open(path, flags, 0o644)
+            self.buf = b""
+
+        def _drain(self, part=False):
+            data, self.buf = self.buf, b""
+            if data:
+                os.write(self.fd, data[: max(1, len(data) // 2)] if part else data)
 
         def write(self, data):
             act = self.inj._tick("write", self.path, len(data))
+            if self.inj.buffered:
+                if act != "go":
+                    raise Crash()          # whatever is pending in the buffer dies with the process
+                self.buf += bytes(data)
+                if len(self.buf) > 8192:
+                    self._drain()
+                return len(data)
             if act == "none":
                 raise Crash()
             if act == "partial":
@@ -57,14 +73,30 @@ class Injector:
             return len(data)
 
         def flush(self):
-            pass
+            if not self.inj.buffered:
+                return
+            act = self.inj._tick("flush", self.path)
+            if act == "none":
+                raise Crash()
+            if act == "partial":
+                self._drain(part=True)
+                raise Crash()
+            self._drain()
+            if act == "full":
+                raise Crash()
 
         def close(self):
             if self.closed:
                 return
             act = self.inj._tick("close", self.path)
-            if act in ("none", "partial"):
+            if act == "none":
                 raise Crash()
+            if act == "partial":
+                if self.inj.buffered:
+                    self._drain(part=True)
+                raise Crash()
+            if self.inj.buffered:
+                self._drain()
             os.close(self.fd)
             self.closed = True
             if act == "full":
